@@ -27,6 +27,9 @@ def sig_of(case, prog, clause, pos):
            "ignore_scaling": bool(prog.get("ignore_scaling")),
            "obstructed": any(c["op"] == "Obstruct" for c in prog["cmds"]),
            "in_process": prog.get("link") is not None,
+           "source_fault": any(c["op"] == "Damage" or (c["op"] == "Convert" and c["m"] == "srcfault")
+                               for c in prog["cmds"]),
+           "zero_background": bool(prog["vol"].get("zero_slab") or prog["vol"].get("allzero")),
            "per_scale_sharding": bool(prog.get("shard_per_scale")),
            "input_range": bool(prog.get("input_range")),
            "several_chunk_sizes": any(c["op"] == "Rechunk" or (c["op"] == "Edit" and c["m"].startswith("cs"))
